@@ -306,8 +306,7 @@ func allFlagOpt(fn *ssa.Function, R ssa.Instruction, S ssa.Instruction, okEdge f
 				if fromS {
 					g = an.Query{Fn: fn, After: S, Target: func(x ssa.Instruction) bool { return x == R },
 						BarrierEdge: func(from, to *ssa.BasicBlock) bool {
-							cnd, t, ok := an.EdgeCond(from, to)
-							return ok && pred(an.Normalize(cnd, t))
+							return an.EdgeHolds(from, to, pred)
 						}}.Find() == nil
 				}
 				if g {
@@ -495,14 +494,11 @@ func ruleO3(c *an.Ctx) {
 		w = an.Query{Fn: g, After: S,
 			Target: func(in ssa.Instruction) bool { return in == ssa.Instruction(S) || in == r },
 			BarrierEdge: func(from, to *ssa.BasicBlock) bool {
-				cnd, tr, ok := an.EdgeCond(from, to)
-				if !ok {
-					return false
-				}
-				rel := an.Normalize(cnd, tr)
-				isS := func(v ssa.Value) bool { return v == ssa.Value(S) }
-				return relEq(rel, isS, func(v ssa.Value) bool { return isState(p, v, "Complete") }) ||
-					relEq(rel, isS, func(v ssa.Value) bool { return isState(p, v, "DisabledState") })
+				return an.EdgeHolds(from, to, func(rel an.Rel) bool {
+					isS := func(v ssa.Value) bool { return v == ssa.Value(S) }
+					return relEq(rel, isS, func(v ssa.Value) bool { return isState(p, v, "Complete") }) ||
+						relEq(rel, isS, func(v ssa.Value) bool { return isState(p, v, "DisabledState") })
+				})
 			}}.Find()
 		c.Check("O3", "waiting-unless-prenode-complete-or-disabled@"+an.FnName(g), S.Pos(), w == nil,
 			"a prenode whose state is neither Complete nor DisabledState must keep the node from Running; "+c.WitnessString(w))
